@@ -1,7 +1,7 @@
 CONSTANTS
-  Mods = {"a", "b", "c"}
+  Mods = {"a", "b", "c", "e"}
   Missing = {}
-  MainOrders = {}
+  MainOrders <- Orders4
   NRandom = 0
 INIT Init
 NEXT Next
